@@ -10,6 +10,19 @@ export GOFLAGS=-mod=mod GOPROXY=off GOSUMDB=off GOTOOLCHAIN=local CGO_ENABLED=1
 mkdir -p bin work replays evidence
 cp "${VERIF_REPO:-/repo}"/go.sum sim/go.sum 2>/dev/null
 bin="$VERIF_DIR/bin/sim-$prop-$$"
+if [ -n "${VERIF_PREBUILT:-}" ] && [ -x "$VERIF_PREBUILT" ]; then
+  # tools/matrix.sh builds once per change and runs all five checks with the same binaries
+  export VERIF_RACE_BIN=""
+  case "$prop" in C07|C19|C10|C11) export VERIF_RACE_BIN="$VERIF_PREBUILT-race" ;; esac
+  "$VERIF_PREBUILT" run "$prop" "$tier"; exit $?
+fi
+if [ "$prop" = "--build-only" ]; then
+  bin="$tier"   # run.sh --build-only <output path>: plain and race binaries, nothing run
+  . "$VERIF_DIR/build.inc.sh"
+  build "$bin-race" -race
+  cleanup_scratch
+  exit 0
+fi
 . "$VERIF_DIR/build.inc.sh"
 # per-invocation binaries so that concurrent checks do not step on each other
 export VERIF_RACE_BIN=""
